@@ -185,6 +185,8 @@ fn run_history(h: &History, shape: &mut Shape) -> Result<u64, Fail> {
     let conn_of_meta = |m: &OutMessageMeta| Conn { worker: m.out_message_consumer_id.0, key: m.connection_id.data().as_ffi() };
 
     let mut ops_done = 0u64;
+    // what a socket worker records per connection: torrent -> peer id it announced (also ids of other connections it tried to use)
+    let mut recorded: Vec<BTreeMap<usize, usize>> = vec![BTreeMap::new(); h.conns.len()];
     for (i, op) in h.ops.iter().enumerate() {
         let fail = |clause: &'static str, signature: &str, detail: String| Fail { op_index: i, clause, signature: signature.to_string(), detail };
         aquatic_common::verif::set_clock(Some(clock));
@@ -198,6 +200,11 @@ fn run_history(h: &History, shape: &mut Shape) -> Result<u64, Fail> {
                 let stopped = *event == 3;
                 let seeder = *left == 1;
                 let me = live[ci].conn;
+                if stopped {
+                    recorded[ci].remove(t);
+                } else {
+                    recorded[ci].insert(*t, *pid);
+                }
                 let offer_list: Option<Vec<AnnounceRequestOffer>> = offers.as_ref().map(|v| {
                     v.iter()
                         .enumerate()
@@ -449,10 +456,19 @@ fn run_history(h: &History, shape: &mut Shape) -> Result<u64, Fail> {
                 let ci = *conn % live.len();
                 let me = live[ci].conn;
                 let v6 = h.conns[ci].1;
-                // the control message carries exactly the pairs this connection created
+                // the control message carries every (torrent, peer id) pair the socket worker recorded for this
+                // connection - including ids of other connections it tried to use; only its own entries may go
                 let owned = model.close(me);
-                for (_fam, hash, pid) in owned.iter() {
-                    let res = catch_unwind(AssertUnwindSafe(|| maps.handle_connection_closed(InfoHash(*hash), PeerId(*pid), if v6 { IpVersion::V6 } else { IpVersion::V4 })));
+                let mut pairs: BTreeSet<([u8; 20], [u8; 20])> = owned.iter().map(|(_, hh, pp)| (*hh, *pp)).collect();
+                for (t, p) in recorded[ci].iter() {
+                    if pairs.insert((h20(0xA0, *t), h20(0xB0, *p))) {
+                        shape.cnt("close_carrying_a_foreign_peer_id");
+                        shape.nontrivial = true;
+                    }
+                }
+                recorded[ci].clear();
+                for (hash, pid) in pairs.iter() {
+                    let res = catch_unwind(AssertUnwindSafe(|| maps.handle_connection_closed(InfoHash(*hash), PeerId(*pid), if v6 { IpVersion::V6 } else { IpVersion::V4 }, ConsumerId(me.worker), live[ci].id)));
                     if let Err(p) = res {
                         return Err(fail("panic", &format!("ws.swarm.close.panic:{}", panic_text(&*p)), "connection close panicked".into()));
                     }
